@@ -97,6 +97,8 @@ func addrText(a p2p.Addr) string {
 }
 
 // runWorkload executes the sends on a world and returns everything received.
+var scribbleTail = bytes.Repeat([]byte{0xEE}, 48)
+
 func runWorkload(w *stack.World, led *ledger.Ledger, sends []send, recvLoops int, scribble bool, settle time.Duration) (recvd []received, entries []*ledger.Entry, sendErrs []error, problems []string) {
 	ctx, cancel := context.WithCancel(context.Background())
 	var mu sync.Mutex
@@ -114,6 +116,9 @@ func runWorkload(w *stack.World, led *ledger.Ledger, sends []send, recvLoops int
 							for j := range m.Payload {
 								m.Payload[j] = 0xEE
 							}
+							// "All of the message's fields may be modified inside fn": growing the payload in place
+							// (as a handler that appends a trailer does) must not reach another message's bytes
+							m.Payload = append(m.Payload, scribbleTail...)
 						}
 						mu.Lock()
 						recvd = append(recvd, r)
